@@ -37,6 +37,7 @@ ASSUMPTIONS = [
 TRUSTED_EXTRA = ["loopback TCP and the in-process AnyTLS server session used by the http_read / http_e2e drivers (harness/src/drv_http.rs)"]
 Case = Case
 IMPL_TIMEOUT = 600
+EXTRA_VO = ["Legacy/HttpLegacy.vo"]      # the C17_refuted_1..7 witnesses are re-checked on every run
 MAXH = 65536
 TERM = b"\r\n\r\n"
 
